@@ -31,7 +31,7 @@ def match_known(prop, mm, known):
     for kf in known.get("findings", []):
         if prop not in kf["property"]:
             continue
-        if kf.get("act") and kf["act"] != mm["act"]:
+        if kf.get("act") and not re.fullmatch(kf["act"], mm["act"]):
             continue
         if kf.get("field") and not re.search(kf["field"], mm["field"]):
             continue
@@ -241,6 +241,8 @@ def run_check(prop, tier, seed):
         # cache, a module-level memo) shows up as a mismatch of one of the two.  A behaviour that deviates is replayed
         # once more ALONE; the report says whether the deviation needs the partner.
         for k in range(0, len(behs), 2):
+            if k % 400 == 0:
+                replay.jax.clear_caches()      # thousands of distinct compiled programs otherwise exhaust the process' memory maps
             pair = behs[k:k + 2]
             if len(pair) == 1:
                 results = [rp.run(pair[0])]
